@@ -134,6 +134,9 @@ package dhcp
 //@   ensures relPool == 0 && markedUnavailable == 0 && relNAT == 0 && relQoS == 0 && relCacheMAC == 0 && acctStops == 0
 //@   ensures lockedN(1, leaseKey(req) in s.leases) && lockedN(1, s.leases[leaseKey(req)]) != nil ==> relSessions == 1 && relQuarantined == 0
 //@   ensures !lockedN(1, leaseKey(req) in s.leases) ==> relSessions == 0
+// the teardown runs only for a lease this call took out of the table (a lease that stays in the table
+// keeps its address: otherwise the pool hands the address out again while the binding is still there)
+//@   ensures relSessions != 0 ==> unlockedN(1, leaseKey(req) !in s.leases)
 
 //@ func (s *Server) handleDecline
 //@   requires req != nil && s.poolMgr != nil
@@ -148,6 +151,7 @@ package dhcp
 //@   ensures relPool == 0 && markedUnavailable == 0 && relNAT == 0 && relQoS == 0 && relCacheMAC == 0 && acctStops == 0
 //@   ensures lockedN(1, leaseKey(req) in s.leases) && lockedN(1, s.leases[leaseKey(req)]) != nil ==> relSessions == 1 && relQuarantined == 1
 //@   ensures !lockedN(1, leaseKey(req) in s.leases) ==> relSessions == 0
+//@   ensures relSessions != 0 ==> unlockedN(1, leaseKey(req) !in s.leases)
 
 //@ func (s *Server) cleanupExpiredLeases
 //@   requires s.poolMgr != nil
